@@ -6,9 +6,10 @@
    5. sums over filtered lists, the int64 guard
    6. report_sorted = report_spec; rows_sum, rows_chronological, sort invariance
    7. today, print --with-totals
-   8. records that come out of the parser carry valid dates *)
+   8. records that come out of the parser carry valid dates
+   9. the statements of Properties/C12.v; 10. the views behind a filter *)
 From Klog Require Import Base.Prelude Base.Utf8 Model.Calendar Model.Values Model.Record Model.Lines Model.Parser Model.Eval
-  Model.Period Model.Report Proofs.Calendar Proofs.Period Proofs.Values Proofs.Eval Proofs.Parser.
+  Model.Period Model.Tags Model.Query Model.Report Proofs.Calendar Proofs.Period Proofs.Values Proofs.Eval Proofs.Parser.
 From Coq Require Import ZifyBool Permutation Sorted.
 Open Scope Z_scope.
 
@@ -1483,3 +1484,38 @@ Qed.
 
 Theorem sort_spec rs : Forall vrec rs -> Permutation (sort_by_date rs) rs /\ sorted (sort_by_date rs).
 Proof. intros V. split; [apply sort_perm|apply sort_sorted; exact V]. Qed.
+
+(* ================= 10. filtered input ================= *)
+
+(* ---- the views behind a filter: service.Filter keeps the date of every record it lets through ---- *)
+
+Lemma reduce_to_tags_date qs r r' : reduce_to_tags qs r = Some r' -> rec_date r' = rec_date r.
+Proof.
+  unfold reduce_to_tags. cbv zeta. destruct (is_subset_of _ _); [intros [= <-]; reflexivity|].
+  destruct (filter _ (rec_entries r)); [discriminate|]. intros [= <-]. reflexivity.
+Qed.
+
+Lemma reduce_to_entry_types_date t r r' : reduce_to_entry_types t r = Some r' -> rec_date r' = rec_date r.
+Proof.
+  unfold reduce_to_entry_types. destruct (filter _ (rec_entries r)); [discriminate|]. intros [= <-]. reflexivity.
+Qed.
+
+Lemma filter_record_date q r r' : filter_record q r = Some r' -> rec_date r' = rec_date r.
+Proof.
+  unfold filter_record.
+  destruct (match q_at_date q with Some a => _ | None => false end); [discriminate|].
+  destruct (match q_before_or_equal q with Some b => _ | None => false end); [discriminate|].
+  destruct (match q_after_or_equal q with Some a => _ | None => false end); [discriminate|].
+  destruct (match q_tags q with [] => Some r | _ :: _ => reduce_to_tags (q_tags q) r end) as [r1|] eqn:E1; [|discriminate].
+  assert (H1 : rec_date r1 = rec_date r).
+  { destruct (q_tags q); [injection E1 as <-; reflexivity|apply reduce_to_tags_date in E1; exact E1]. }
+  destruct (q_entry_type q) as [t|]; [|intros [= <-]; exact H1].
+  intros H. apply reduce_to_entry_types_date in H. congruence.
+Qed.
+
+Theorem filter_records_vrec q rs : Forall vrec rs -> Forall vrec (filter_records q rs).
+Proof.
+  induction rs as [|r rs IH]; intros V; cbn [filter_records]; [constructor|].
+  inversion V; subst. destruct (filter_record q r) as [r'|] eqn:E; [|apply IH; assumption].
+  constructor; [|apply IH; assumption]. apply filter_record_date in E. unfold vrec, Report.rdate in *. rewrite E. assumption.
+Qed.
